@@ -7,7 +7,7 @@ against the real server binary, reading the text back via glas/syntaxTree after 
 import json, os, shutil
 import vlib, lsp
 
-TABLES = [["a", "ß", "ℝ", "💣"], ["Z", "é", "中", "𝒳"], [" ", "\u0080", "ࠀ", "\U00010000"], ["\t", "߿", "￿", "\U0010ffff"]]
+TABLES = [["a", "ß", "ℝ", "💣"], ["Z", "é", "中", "𝒳"], [" ", "\u0080", "ࠀ", "\U00010000"], ["\t", "߿", "￿", "\U0010ffff"], ["1", "\u00a0", "\ufeff", "\U0001f600"]]
 
 
 def render(units, tab):
